@@ -3,6 +3,7 @@ package checks
 import (
 	"encoding/json"
 	"fmt"
+	"sort"
 	"strings"
 	"testing"
 
@@ -17,7 +18,7 @@ import (
 // C19 — token positions are exact, ordered and tile the source.
 
 func init() {
-	for _, n := range []string{"lexeme-sequences", "templates", "soup"} {
+	for _, n := range []string{"lexeme-sequences", "templates", "soup", "long-lines"} {
 		harness.RegisterReplayer("C19/"+n, func(raw json.RawMessage) string {
 			var src string
 			if err := json.Unmarshal(raw, &src); err != nil {
@@ -160,25 +161,67 @@ func c19Oracle(src string) string {
 		}
 		prevEnd = pt.end
 	}
-	// cursor containment: every byte position lies in exactly the covering token
-	for off := 0; off <= len(src); off++ {
+	// cursor containment: every byte position lies in exactly the covering token. For large
+	// sources (bytes x tokens beyond four million) the positions checked are those within two bytes
+	// of a token's first or last byte and 2000 evenly spaced ones, each against the tokens within
+	// three places of its covering token and the first and last token.
+	small := len(src)*len(toks) <= 4_000_000
+	var offsets []int
+	if small {
+		for off := 0; off <= len(src); off++ {
+			offsets = append(offsets, off)
+		}
+	} else {
+		mark := map[int]bool{}
+		add := func(o int) {
+			if o >= 0 && o <= len(src) && !mark[o] {
+				mark[o] = true
+				offsets = append(offsets, o)
+			}
+		}
+		for _, pt := range toks {
+			for d := -2; d <= 2; d++ {
+				add(pt.start + d)
+				add(pt.end + d)
+			}
+		}
+		for k := 0; k <= 2000; k++ {
+			add(len(src) / 2000 * k)
+		}
+		sort.Ints(offsets)
+	}
+	ci := 0 // index of the first token whose end is >= off (offsets ascend)
+	for _, off := range offsets {
 		line, col := ix.LineCol(off)
 		if off == len(src) && toks[len(toks)-1].tok.Type != token.EOF {
 			break
 		}
+		for ci < len(toks)-1 && toks[ci].tok.Type != token.EOF && toks[ci].end < off {
+			ci++
+		}
 		cover := -1
-		for i, pt := range toks {
-			if pt.tok.Type == token.EOF {
-				if off == len(src) {
-					cover = i
-				}
-				continue
+		if pt := toks[ci]; pt.tok.Type == token.EOF {
+			if off == len(src) {
+				cover = ci
 			}
-			if off >= pt.start && off <= pt.end {
-				cover = i
+		} else if off >= pt.start && off <= pt.end {
+			cover = ci
+		}
+		var which []int
+		if small {
+			for i := range toks {
+				which = append(which, i)
+			}
+		} else {
+			which = append(which, 0, len(toks)-1)
+			for i := ci - 3; i <= ci+3; i++ {
+				if i > 0 && i < len(toks)-1 {
+					which = append(which, i)
+				}
 			}
 		}
-		for i, pt := range toks {
+		for _, i := range which {
+			pt := toks[i]
 			got := pt.tok.Pos.Contains(uint(line), uint(col))
 			if got != (i == cover) {
 				// after an ILLEGAL token nothing is claimed about the rest
